@@ -161,8 +161,9 @@ class World:
                 if raised:
                     v("toggle-leaf-raised", f"{e}: {r!r}")
                 else:
-                    if m["rg"] != bool(val) and (m["used"] or m["grad"] is not False):
-                        m["gradknown"] = False     # flag changed after use in a graph: gradient bookkeeping unspecified
+                    if m["rg"] != bool(val) and m["used"] and m["grad"] is not True:
+                        m["gradknown"] = False     # flag changed after use in a graph, no gradient yet: whether one arrives later is unspecified
+                    # a leaf that already HOLDS a gradient keeps it whatever happens to the flag (torch keeps .grad after requires_grad_(False))
                     m["rg"] = bool(val)
                     if val: m["ever_rg"] = True
         elif k == "retain":
@@ -252,8 +253,8 @@ class World:
                 v("grad-on-tensor-not-requiring-grad", f"t{i} never required grad but has .grad")
             elif not m["nonleaf"]:
                 # leaves keep their gradient (whether an unreached leaf may be given one is C04's business)
-                if m["gradknown"] and m["grad"] is True and m["rg"] and not has:
-                    v("leaf-grad-lost", f"t{i} is a leaf that received a gradient but .grad is None")
+                if m["gradknown"] and m["grad"] is True and not has:
+                    v("leaf-grad-lost", f"t{i} is a leaf that received a gradient but .grad is None (requires_grad is now {m['rg']})")
             elif m["gradknown"] and m["grad"] is not None and has != m["grad"]:
                 kind = "interior-grad-not-released" if has else "retained-grad-missing"
                 v(kind, f"t{i}.grad present={has}, model {m['grad']} (retain={m['retain']}, built_under_retain_grads={m['under_ret']})")
